@@ -684,14 +684,14 @@ fn main() {
 		"scenarios: plain extension, extension spending the oldest output, fork block, reorg with spends, header-only reorg \
 		 (sync_block_headers onto a heavier fork), compaction, compaction followed by a block spending an old output, block spending a \
 		 pre-horizon output on a compacted node. Each scenario is run once in count mode; the hooks report every durable step reached \
-		 (aof.flush.pre_truncate/post_truncate/pre_append/post_sync, aof.write_tmp_pruned.done, aof.replace.pre_remove/ \
+		 (aof.flush.pre_truncate/post_truncate/pre_append/torn_append_head/torn_append_tail/post_sync — the two torn points write only the first 5 bytes / all but the last byte of the buffered records before the abort —, aof.write_tmp_pruned.done, aof.replace.pre_remove/ \
 		 between_remove_and_rename/post_rename, save_via_temp_file.pre_rename/post_rename, lmdb.commit.pre/post); then EVERY index is \
 		 crashed (abort in a sacrificial process on a copy of the prepared directory) and a fresh process checks: Chain::init succeeds, \
 		 head is on the previously accepted chain, validate(false) passes, the reopened state equals the replayed state of its head, \
 		 re-delivery (accepted chain above the reopened head, fork blocks, then the interrupted input) converges to the uninterrupted \
 		 twin's head and best-chain state digest, a later block is accepted, validate(true) passes. Every crash point is one case.",
 	);
-	run.assume("process death at the hook (abort, no destructors, LMDB environment not closed); the OS page cache survives, so torn writes / power loss are out of reach");
+	run.assume("process death at the hook (abort, no destructors, LMDB environment not closed); the OS page cache survives, so power loss (loss or reordering of completed writes) is out of reach; a write cut short by the death of the process is covered for MMR file appends (two cut positions per append), not for the temp-file writes of leaf set / prune list (never observed half-written: they are renamed into place) nor inside LMDB");
 	let sc = Scratch::new("c09");
 	let work = sc.path.display().to_string();
 	let long = true;
@@ -794,7 +794,7 @@ fn main() {
 	run.require("scenarios_counted", per_scenario.len() as u64, 8 * worlds.len() as u64);
 	run.require("crash_points_exercised == enumerated", run.counter("crash_points_exercised"), total_jobs.max(100));
 	for l in [
-		"lmdb.commit.pre", "lmdb.commit.post", "aof.flush.pre_append", "aof.flush.post_sync", "aof.flush.pre_truncate",
+		"lmdb.commit.pre", "lmdb.commit.post", "aof.flush.pre_append", "aof.flush.torn_append_head", "aof.flush.torn_append_tail", "aof.flush.post_sync", "aof.flush.pre_truncate",
 		"aof.flush.post_truncate", "save_via_temp_file.pre_rename", "save_via_temp_file.post_rename", "aof.replace.pre_remove",
 		"aof.replace.between_remove_and_rename", "aof.replace.post_rename", "aof.write_tmp_pruned.done",
 	] {
